@@ -100,6 +100,11 @@ def cases(tier, seed):
     for i, c in enumerate(out):
         if c["datatype"]["kind"] == "general" and i % 3 == 1:
             out[i] = phylo.as_attribute_case(c)
+    # every seventh alignment hangs on a Taxa object of its own that lists the taxa in another order (a rotation: not its own inverse)
+    for i, c in enumerate(out):
+        if i % 7 == 4 and not c.get("attribute_pattern") and len(c["names"]) >= 3:
+            r_ = 1 + i % (len(c["names"]) - 1)
+            c["aln_taxa_order"] = c["names"][r_:] + c["names"][:r_]
     # every fifth alignment is read from a FASTA file (the 'file' form torchtree-cli writes), sequences wrapped over several lines
     for i, c in enumerate(out):
         if i % 5 == 2 and not c.get("attribute_pattern"):
@@ -192,7 +197,19 @@ def run_case(case):
         urng = np.random.default_rng(h)
         c2 = copy.deepcopy(case)
         changed = []
-        for name in ("kappa", "rates", "alpha", "beta", "pi"):
+        clk = c2.get("clock") or {}
+        only_clock = bool(clk) and (h // 3) % 2 == 0
+        if only_clock:
+            # nothing but the clock rate(s) changes
+            if clk["kind"] == "strict" and "clock.rate" in dic:
+                clk["rate"] = float(clk["rate"] * urng.uniform(0.4, 2.5))
+                dic["clock.rate"].tensor = torch.tensor([clk["rate"]], dtype=torch.float64)
+                changed.append("clock.rate")
+            elif clk["kind"] == "simple" and "clock.rate" in dic:
+                clk["rates"] = [float(x * urng.uniform(0.4, 2.5)) for x in clk["rates"]]
+                dic["clock.rate"].tensor = torch.tensor(clk["rates"], dtype=torch.float64)
+                changed.append("clock.rate")
+        for name in (() if only_clock else ("kappa", "rates", "alpha", "beta", "pi")):
             if name not in c2["subst"] or "sm." + name not in dic:
                 continue
             old_v = c2["subst"][name]
@@ -205,7 +222,7 @@ def run_case(case):
             c2["subst"][name] = new_v
             dic["sm." + name].tensor = torch.tensor(new_v if isinstance(new_v, list) else [new_v], dtype=torch.float64)
             changed.append("sm." + name)
-        for name in ("pinv", "shape", "mu"):
+        for name in (() if only_clock else ("pinv", "shape", "mu")):
             if name not in c2["site"] or "site." + name not in dic:
                 continue
             new_v = float(urng.uniform(0.02, 0.8)) if name == "pinv" else float(c2["site"][name] * urng.uniform(0.5, 2.0))
